@@ -20,6 +20,7 @@
 //!          | dcerts <k> { <tag> <coin|~> <script 0|1> }*           set_certs (deprecated)
 //!          | dwd <k> { <addr> <coin> <script 0|1> }*               set_withdrawals (deprecated)
 //!          | rmmint                                                 remove_mint_builder
+//!          | setmintasset <policy> <k> { <name> <amount> }*        set_mint_asset (deprecated)
 //!          | kprops <k> { <identity> <deposit> }*                  VotingProposalBuilder::add per item (same identity and deposit = the same proposal)
 //!   addr  = address id (>= 1; kind and bytes are a function of the id), extra = 0 none, 1 datum hash, 2 inline datum,
 //!           3 script ref, 4 inline datum + script ref.  UTxO id i is outpoint (hash(i), i mod 7) locked by key address.
@@ -304,6 +305,7 @@ enum Op {
     DWd(Vec<(u64, BigNum, bool)>),
     KProps(Vec<(u64, BigNum)>),
     RmMint,
+    SetMintAsset(Vec<u8>, Vec<(Vec<u8>, String)>),
 }
 fn opt_bn_s(o: &Option<BigNum>) -> String { match o { Some(v) => v.to_str(), None => "~".into() } }
 impl Op {
@@ -333,6 +335,7 @@ impl Op {
             Op::DMint(ok, es) => { let mut s = format!("dmint {} {}", *ok as u8, es.len()); for (p, n, a) in es { s.push_str(&format!(" {} {} {}", hex::encode(p), hex_or_dash(n), a)); } s }
             Op::DCerts(cs) => { let mut s = format!("dcerts {}", cs.len()); for (t, c, sc) in cs { s.push_str(&format!(" {} {} {}", t, opt_bn_s(c), *sc as u8)); } s }
             Op::RmMint => "rmmint".into(),
+            Op::SetMintAsset(p, es) => { let mut s = format!("setmintasset {} {}", hex::encode(p), es.len()); for (n, a) in es { s.push_str(&format!(" {} {}", hex_or_dash(n), a)); } s }
             Op::KProps(ps) => { let mut s = format!("kprops {}", ps.len()); for (i, d) in ps { s.push_str(&format!(" {} {}", i, d.to_str())); } s }
             Op::DWd(ws) => { let mut s = format!("dwd {}", ws.len()); for (a, c, sc) in ws { s.push_str(&format!(" {} {} {}", a, c.to_str(), *sc as u8)); } s }
         }
@@ -404,6 +407,7 @@ fn parse(toks: &[String]) -> Scenario {
             "dmint" => { let ok = p.next() == "1"; let k = p.count().unwrap(); Op::DMint(ok, (0..k).map(|_| { let pol = hex::decode(p.next()).unwrap(); let n = unhex_or_dash(p.next()); (pol, n, p.next().to_string()) }).collect()) }
             "dcerts" => { let k = p.count().unwrap(); Op::DCerts((0..k).map(|_| { let t: u32 = p.next().parse().unwrap(); let c = p.opt_bn(); (t, c, p.next() == "1") }).collect()) }
             "rmmint" => Op::RmMint,
+            "setmintasset" => { let pol = hex::decode(p.next()).unwrap(); let k = p.count().unwrap(); Op::SetMintAsset(pol, (0..k).map(|_| { let n = unhex_or_dash(p.next()); (n, p.next().to_string()) }).collect()) }
             "kprops" => { let k = p.count().unwrap(); Op::KProps((0..k).map(|_| { let i = p.u64(); (i, bn(p.next())) }).collect()) }
             "dwd" => { let k = p.count().unwrap(); Op::DWd((0..k).map(|_| { let a = p.u64(); let c = bn(p.next()); (a, c, p.next() == "1") }).collect()) }
             x => panic!("bad op {}", x),
@@ -669,6 +673,17 @@ fn run_op(w: &mut World, op: &Op, last_tx: &mut Option<Transaction>) -> OpRec {
             });
             OpRec { res: res_unit(r), tape: vec![], sel: None, attempts: 0 }
         }
+        Op::SetMintAsset(p, es) => {
+            let r = catch(|| -> Result<(), JsError> {
+                let idx = *w.policy_idx.get(p).ok_or(JsError::from_str("unknown policy"))?;
+                let mut ma = MintAssets::new();
+                for (n, a) in es { ma.insert(&AssetName::new(n.clone())?, &Int::from_str(a)?)?; }
+                w.tb.set_mint_asset(&policy_script(idx), &ma)
+            });
+            // queries in between (no effect on the builder)
+            let _ = catch(|| { let _ = w.tb.get_mint_builder(); let _ = w.tb.get_mint_scripts(); let _ = w.tb.get_mint(); });
+            OpRec { res: res_unit(r), tape: vec![], sel: None, attempts: 0 }
+        }
         Op::RmMint => { w.tb.remove_mint_builder(); OpRec { res: "ok".into(), tape: vec![], sel: None, attempts: 0 } }
         Op::KProps(ps) => {
             // the same (identity, deposit) gives the identical VotingProposal: added twice it is in the builder once
@@ -888,6 +903,26 @@ fn gen_assets(r: &mut Rng, n_assets: u64, n_pol: u64, big: bool) -> Option<Vec<(
     }
     Some(es)
 }
+/// one step of a mint history: any mint entry point, on a small pool of policies / names (so that steps meet on the same lines)
+fn gen_mint_step(r: &mut Rng, utxos: &[(u64, Val)]) -> Op {
+    let held: Vec<(Vec<u8>, Vec<u8>)> = utxos.iter().filter_map(|(_, v)| v.assets.as_ref()).flat_map(|es| es.iter())
+        .filter(|e| e.1 != empty_policy_marker() && u64::from(e.2) > 0).map(|e| (e.0.clone(), e.1.clone())).collect();
+    let pick_line = |r: &mut Rng| -> (Vec<u8>, Vec<u8>) {
+        if !held.is_empty() && r.chance(1, 3) { r.pick(&held).clone() } else { (policy_bytes(r.below(2)), NAMES[r.below(3) as usize + 1].to_vec()) } };
+    let amount = |r: &mut Rng| -> String { match r.below(6) { 0 => format!("-{}", r.range(1, 5)), 1 => "0".into(), _ => format!("{}", r.range(1, 5000)) } };
+    let (p, n) = pick_line(r);
+    match r.below(9) {
+        0 | 1 => { let k = r.range(1, 2); let mut es = vec![(n, amount(r))]; if k == 2 { es.push((pick_line(r).1, amount(r))); } Op::SetMintAsset(p, es) }
+        2 => Op::Mint(r.chance(1, 2), p, n, amount(r)),
+        3 => Op::AddMint(p, n, amount(r)),
+        4 => { let (p2, n2) = pick_line(r); Op::DMint(r.chance(7, 8), vec![(p, n, amount(r)), (p2, n2, amount(r))]) }
+        5 => Op::MintOut(p, n, amount(r), r.range(1, 30), 0, b64(r.range(1_200_000, 3_000_000))),
+        6 => Op::MintOutMin(p, n, amount(r), r.range(1, 30), 0),
+        7 => Op::RmMint,
+        _ => { let k = r.range(1, 2); let mut es = vec![(n, amount(r))]; if k == 2 { es.push((pick_line(r).1, amount(r))); } Op::SetMintAsset(p, es) }
+    }
+}
+
 /// a UTxO amount with entries that stand for nothing, in every layout: a zero quantity before / after / between positive
 /// assets of the same policy (name order: length, then bytes), several zeros, a zero-only policy next to a positive one,
 /// `policy => {}`, an all-zero multiasset, Some(empty multiasset)
@@ -1030,6 +1065,12 @@ fn gen_scenario(r: &mut Rng, stream: u32) -> Scenario {
             hist.push(match r.below(4) { 0 => Op::AddMint(p.clone(), n.clone(), txt), 1 if i == 0 => Op::Mint(true, p.clone(), n.clone(), txt), _ => Op::Mint(false, p.clone(), n.clone(), txt) });
         }
     }
+    // mint histories over ALL mint entry points in sequence (set_mint_builder via `mint`, set_mint, set_mint_asset,
+    // add_mint_asset, add_mint_asset_and_output*, remove_mint_builder), 2-4 steps on a small pool of (policy, name), kept in order
+    if matches!(stream, 0 | 2 | 4 | 6 | 8) && r.chance(1, 3) {
+        let steps = r.range(2, 4);
+        for _ in 0..steps { let op = gen_mint_step(r, &utxos); hist.push(op); }
+    }
     // phase 2 entry points: mint together with an output, deprecated setters
     if matches!(stream, 4 | 6 | 7) || r.chance(1, 10) {
         let nm = r.below(3);
@@ -1098,13 +1139,14 @@ fn gen_scenario(r: &mut Rng, stream: u32) -> Scenario {
             let mut present: Vec<Op> = vec![];
             if has(&|o| matches!(o, Op::Wd(Some(_)) | Op::DWd(_))) { present.push(Op::Wd(None)); }
             if has(&|o| matches!(o, Op::Certs(Some(_)) | Op::DCerts(_))) { present.push(Op::Certs(None)); }
-            if has(&|o| matches!(o, Op::Mint(..) | Op::AddMint(..) | Op::DMint(..) | Op::MintOut(..) | Op::MintOutMin(..))) { present.push(Op::RmMint); }
+            if has(&|o| matches!(o, Op::Mint(..) | Op::AddMint(..) | Op::DMint(..) | Op::MintOut(..) | Op::MintOutMin(..))) { present.push(Op::RmMint); present.push(gen_mint_step(r, &utxos)); }
             if !present.is_empty() && r.chance(1, 2) { let k = r.below(present.len() as u64) as usize; post.push(present[k].clone()); continue; }
             let m = match r.below(16) {
                 0 | 1 => if has(&|o| matches!(o, Op::Wd(Some(_)) | Op::DWd(_))) || r.chance(1, 3) { Op::Wd(None) } else { Op::Wd(Some(vec![(gen_reward_id(r), b64(r.range(1, 2_000_000))), (gen_reward_id(r), b64(r.range(1, 2_000_000)))])) },
                 2 | 3 => if has(&|o| matches!(o, Op::Certs(Some(_)) | Op::DCerts(_))) || r.chance(1, 3) { Op::Certs(None) } else { Op::Certs(Some(gen_certs(r, false))) },
-                4 => Op::RmMint,
-                5 => Op::Don(b64(r.range(0, 2_000_000))),
+                4 => if r.chance(1, 2) { Op::RmMint } else { gen_mint_step(r, &utxos) },
+                5 => if r.chance(1, 2) { gen_mint_step(r, &utxos) } else { Op::Don(b64(r.range(0, 2_000_000))) },
+                55 => Op::Don(b64(r.range(0, 2_000_000))),
                 6 => Op::Treas(b64(r.below(3) * 1_000_000_000)),
                 7 => Op::Wd(Some(vec![(gen_reward_id(r), b64(r.range(0, 2_000_000))), (gen_reward_id(r), b64(r.range(1, 2_000_000)))])),
                 8 => Op::Out(r.range(1, 30), 0, Val::ada(r.range(1_000_000, 3_000_000))),
